@@ -68,6 +68,8 @@ def check_spec(name, sp, fns, consts, timeout_ms, cfg="fe64"):
         res.update(status="violated", reason="unconditional panic while interpreting: %s" % e)
         return res
     P = Problem(I.tab, timeout_ms)
+    if CROSS["n"] > 0 and not sp.get("ring"):
+        P.cross = dict(left=CROSS["n"], results=[])
     obl = [dict(kind="overflow", what="no overflow: %s [%s]" % (o["what"], o["where"]), poly=o["poly"], lo=o["lo"], hi=o["hi"]) for o in I.obligations] + R.items
     budget = float(sp.get("budget_s", 600)) * (1.0 if timeout_ms <= 60000 else 4.0)
     for o in obl:
@@ -102,6 +104,11 @@ def check_spec(name, sp, fns, consts, timeout_ms, cfg="fe64"):
         res["status"] = "violated"
     elif bad:
         res["status"] = "inconclusive"
+    if P.cross is not None:
+        res["second_solver"] = dict(solver="cvc5", sampled_unsat_queries=len(P.cross["results"]), verdicts=P.cross["results"])
+        if any(v == "sat" for v in P.cross["results"]):
+            res["status"] = "inconclusive"
+            res["reason"] = "solver disagreement: z3 unsat, cvc5 sat on the same SMT-LIB query"
     res.update(n_obligations=len(obl), n_proved=len(obl) - len(bad), atoms=len(I.tab.atoms), quot_atoms=I.stats["quot_atoms"],
                monomials=len(P.mvars), solver_s=round(P.time, 3), queries=P.queries, wall_s=round(time.time() - t0, 3),
                functions=sorted(I.stats["functions"]), blocks=I.stats["blocks"])
@@ -143,6 +150,7 @@ def confirm(sp, fns, consts, model, o, only=None):
 
 
 NATIVE = dict(base=None, features=[])
+CROSS = dict(n=0)
 
 
 def native_crosscheck(R):
@@ -212,6 +220,7 @@ def main():
     t0 = time.time()
     fns, consts = mirparse.parse_file(a.mir)
     NATIVE["base"] = a.native_base
+    CROSS["n"] = 3 if a.tier == "thorough" else int(os.environ.get("MIRSYM_CROSS", "0") or 0)
     NATIVE["features"] = ["force-32bits"] if a.cfg == "fe32" else []
     import z3
     out = dict(mir=a.mir, parse_s=round(time.time() - t0, 2), z3=z3.get_version_string(), results=[])
